@@ -94,6 +94,11 @@ func vlenDecision(p *Program, f *ssa.Function, fixedStore, posStore *ssa.Store) 
 		if g, base, field, okc := flagCell(cond, f); okc {
 			return vlenCellDecision(p, g, base, field)
 		}
+		// the flag may be folded into a helper's result: "common size, or a negative sentinel if two
+		// elements differ"; the caller separates the sentinel from every size by a constant comparison
+		if why, handled := vlenSentinelDecision(p, cond); handled {
+			return why
+		}
 		e := newEval(p)
 		return "the layout is chosen by " + abbreviate(e.eval(cond).String()) + ", computed from aggregates after the element loop, not by a per-element flag: value lists whose sizes differ but satisfy it are laid out as fixed-size and sliced at wrong offsets"
 	}
@@ -334,6 +339,197 @@ func vlenCellDecision(p *Program, g *ssa.Function, base *ssa.Alloc, field int) s
 		if !clearedUnderSizeCompare(p, g, b, isCarried) {
 			return fmt.Sprintf("the layout flag is cleared at %s but not under a comparison of the current element's size with the previous one", p.Pos(st.Pos()))
 		}
+	}
+	return ""
+}
+
+// vlenSentinelDecision: cond compares result #k of a trie helper h with a constant; in h every return
+// yields for that result either one negative constant (the sentinel) or a size, chosen by a branch on a
+// boolean fold over the element loop (either polarity: "all equal" cleared, or "mixed" set, under a
+// comparison of the current element's size with a loop-carried size).
+func vlenSentinelDecision(p *Program, cond ssa.Value) (string, bool) {
+	bo, ok := cond.(*ssa.BinOp)
+	if !ok {
+		return "", false
+	}
+	var res ssa.Value
+	var k int64
+	var resLeft bool
+	if c, isK := constInt(bo.Y); isK {
+		res, k, resLeft = bo.X, c, true
+	} else if c, isK := constInt(bo.X); isK {
+		res, k, resLeft = bo.Y, c, false
+	} else {
+		return "", false
+	}
+	res = stripConv(res)
+	idx := 0
+	var call *ssa.Call
+	switch x := res.(type) {
+	case *ssa.Extract:
+		idx = x.Index
+		call, _ = x.Tuple.(*ssa.Call)
+	case *ssa.Call:
+		call = x
+	}
+	if call == nil {
+		return "", false
+	}
+	h := calleeOf(call)
+	if h == nil || !trieScope(h) || len(h.Blocks) == 0 {
+		return "", false
+	}
+	evalCmp := func(v int64) bool {
+		a, b := v, k
+		if !resLeft {
+			a, b = k, v
+		}
+		switch bo.Op {
+		case token.EQL:
+			return a == b
+		case token.NEQ:
+			return a != b
+		case token.LSS:
+			return a < b
+		case token.LEQ:
+			return a <= b
+		case token.GTR:
+			return a > b
+		case token.GEQ:
+			return a >= b
+		}
+		return false
+	}
+	var sentinel *int64
+	var sentRets, sizeRets []*ssa.Return
+	for _, ret := range returnsOf(h) {
+		if idx >= len(ret.Results) {
+			return "", false
+		}
+		if c, isK := constInt(stripConv(ret.Results[idx])); isK && c < 0 {
+			if sentinel != nil && *sentinel != c {
+				return "the helper " + shortFn(h) + " returns different negative sentinels", true
+			}
+			cc := c
+			sentinel = &cc
+			sentRets = append(sentRets, ret)
+		} else {
+			sizeRets = append(sizeRets, ret)
+		}
+	}
+	if sentinel == nil || len(sizeRets) == 0 {
+		return "", false
+	}
+	// the caller's comparison separates the sentinel from every size
+	ts := evalCmp(*sentinel)
+	for _, v := range []int64{0, 1, 2, 255, 65536, 1 << 30} {
+		if evalCmp(v) == ts {
+			return fmt.Sprintf("the comparison with %d does not separate the sentinel %d of %s from every size (size %d falls on the sentinel's side)", k, *sentinel, shortFn(h), v), true
+		}
+	}
+	// the branch in h that separates sentinel returns from size returns tests a boolean fold
+	var flag *ssa.Phi
+	for _, sr := range sentRets {
+		for d := sr.Block(); d != nil && flag == nil; d = d.Idom() {
+			id := d.Idom()
+			if id == nil {
+				break
+			}
+			iff, ok := lastInstr(id).(*ssa.If)
+			if !ok {
+				continue
+			}
+			c := iff.Cond
+			for {
+				if u, ok := c.(*ssa.UnOp); ok && u.Op == token.NOT {
+					c = u.X
+					continue
+				}
+				break
+			}
+			if ph, ok := c.(*ssa.Phi); ok && isBoolType(ph.Type()) {
+				flag = ph
+			}
+		}
+	}
+	if flag == nil {
+		return "the helper " + shortFn(h) + " does not choose its sentinel by a per-element boolean flag", true
+	}
+	return boolFoldOverSizes(p, h, flag), true
+}
+
+// boolFoldOverSizes: flag is a phi family holding only boolean constants; the constant on edges from
+// outside every loop is the initial value; every edge carrying the other value comes from a block that
+// is inside a loop and control dependent, on the "differs" side, on a comparison of the current element's
+// size with a loop-carried size.
+func boolFoldOverSizes(p *Program, f *ssa.Function, flag *ssa.Phi) string {
+	fam := map[*ssa.Phi]bool{}
+	type edge struct {
+		val  bool
+		pred *ssa.BasicBlock
+	}
+	var edges []edge
+	var walk func(ph *ssa.Phi) string
+	walk = func(ph *ssa.Phi) string {
+		if fam[ph] {
+			return ""
+		}
+		fam[ph] = true
+		for i, ed := range ph.Edges {
+			switch x := ed.(type) {
+			case *ssa.Phi:
+				if w := walk(x); w != "" {
+					return w
+				}
+			case *ssa.Const:
+				b, ok := constBool(x)
+				if !ok {
+					return "the layout flag is not a boolean constant fold"
+				}
+				edges = append(edges, edge{b, ph.Block().Preds[i]})
+			default:
+				e := newEval(p)
+				return "the layout flag is assigned " + abbreviate(e.eval(ed).String()) + " (not a per-element fold of true/false)"
+			}
+		}
+		return ""
+	}
+	if w := walk(flag); w != "" {
+		return w
+	}
+	var init *bool
+	for _, ed := range edges {
+		if loopHeaderOf(ed.pred) == nil {
+			v := ed.val
+			if init != nil && *init != v {
+				return "the layout flag has two different initial values"
+			}
+			init = &v
+		}
+	}
+	if init == nil {
+		return "the layout flag has no initial value outside the element loop"
+	}
+	flips := 0
+	for _, ed := range edges {
+		if ed.val == *init {
+			continue
+		}
+		flips++
+		header := loopHeaderOf(ed.pred)
+		if header == nil {
+			return "the layout flag is changed outside the element loop (decided from aggregates) at " + p.Pos(lastInstr(ed.pred).Pos())
+		}
+		isCarried := func(v ssa.Value, cur ssa.Value) bool {
+			ph, ok := stripConv(v).(*ssa.Phi)
+			return ok && loopHeaderOf(ph.Block()) != nil
+		}
+		if !clearedUnderSizeCompare(p, f, ed.pred, isCarried) {
+			return fmt.Sprintf("the layout flag is changed at %s but not under a comparison of the current element's size with a carried size", p.Pos(lastInstr(ed.pred).Pos()))
+		}
+	}
+	if flips == 0 {
+		return "the layout flag never changes"
 	}
 	return ""
 }
